@@ -163,10 +163,17 @@ def classify(unit, out, res, diags, stderr):
         if asm_line and 0 < asm_line <= len(out.lines):
             text = out.lines[asm_line - 1].strip()[:160]
         implicit = bool(fn) and label == implicit_label(fn, unit)
+        norefuse = False
         # a failed precondition of a PROOF function (lemma_ / ax_ / thm_ call in a proof block) is a hole in the proof, not a panic
         proof_call = bool(re.search(r"\b(lemma_|ax_|thm_)\w*\s*(::<[^>]*>)?\(", text or ""))
-        panic_kind = (msg.startswith("precondition not satisfied") and not proof_call) or "arithmetic underflow/overflow" in msg or "division by zero" in msg or "bit shift" in msg
-        if implicit and unit.get("implicit") == "nondeciding" and panic_kind:
+        panic_kind = (msg.startswith("precondition not satisfied") and not proof_call) or msg.startswith("precondition not met") or "arithmetic underflow/overflow" in msg or "division by zero" in msg or "bit shift" in msg
+        if implicit and panic_kind and fn in getattr(out, "norefuse", {}):
+            # the function's contract says @norefuse: a possible panic under its preconditions is a failure of that label (and of
+            # that label only: Verus assumes the call returned, so the other clauses are proved for the runs that do not panic)
+            label = out.norefuse[fn]
+            implicit = False
+            norefuse = True
+        if implicit and not norefuse and unit.get("implicit") == "nondeciding" and panic_kind:
             # CL03 units: a panic is a refusal and no property speaks about panic freedom, so unlabelled callee / index /
             # overflow preconditions do not decide.  Failed loop invariants, assertions and postconditions DO: they carry
             # the proof of the labelled clauses (a clause "proved" from a failed invariant is not proved).
@@ -267,6 +274,7 @@ def verify_unit(name, seed=None, rlimit=None, items=None, mutate=None, keep=True
     return {
         "unit": name,
         "failures": failures,
+        "notes": notes,
         "verified": vr.get("verified", 0),
         "errors": vr.get("errors", 0),
         "wall_s": wall,
@@ -299,5 +307,7 @@ if __name__ == "__main__":
             continue
         seen.add(key)
         print(f"  FAIL {f['label']:45s} {f['message'][:40]:40s} {f['site']}  | {f['text'][:90]}")
+    for n in r["notes"]:
+        print(f"  note (non-deciding: a possible panic, which is a refusal in this unit) {n.get('site')} | {n.get('message')[:60]}")
     slow = sorted(r["functions"], key=lambda x: -x["ms"])[:5]
     print("  slowest:", [(s["function"].split("::")[-1], s["ms"]) for s in slow])
